@@ -11,14 +11,17 @@ What is proved:
   * the round trip per location and shape for *both* flavours (code / specification) under the explicit `Encodable`
     side conditions, lifted through allOf / anyOf / oneOf (`decodeStyled_anyOf_first`, `…_oneOf_last`, `…_allOf_*`),
     and for nested deepObject at every depth (`nest_roundtrip`);
-  * `validateParameter = validateSpec` is NOT a theorem of the pinned code: it fails inside decidable exclusion classes,
-    each with a kernel-checked witness below (CookieExplode #31, EnumGoType #42, QueryObjAbsent, QueryObjNoProps,
-    DeepKeyJunk, UntypedSchema; for content-described parameters ContentMissing, ContentCookieAbsent). Outside them it IS
-    proved: `decodeStyled_impl_eq_spec_partial` (every schema, compositions included), `validate_eq_spec_partial`
+  * `validateParameter = validateSpec` is NOT a theorem of the pinned code: it fails inside three decidable exclusion
+    classes, each with a kernel-checked witness below (CookieExplode #31, EnumGoType #42, UntypedSchema). Outside them it
+    IS proved: `decodeStyled_impl_eq_spec_partial` (every schema, compositions included), `validate_eq_spec_partial`
     (every single-leaf schema), `validate_eq_spec_enumfree_partial` (every composition without enums),
-    `respHeader_eq_spec_partial`, `content_flavour_partial`;
-  * repaired and therefore class-free: primitive texts (`parsePrim_eq_specPrim`, F-C05-3 / 53dfa1b) and the object
-    builder (`makeObject` has one flavour, `makeObject_lookup_addl`, `addl_shadow_regression`, F-C05-4 / 997bea5).
+    `respHeader_eq_spec_partial`;
+  * repaired and therefore class-free (former witnesses are regression theorems): primitive texts (`parsePrim_eq_specPrim`,
+    F-C05-3 / 53dfa1b), the object builder (`makeObject_lookup_addl`, `addl_shadow_regression`, F-C05-4 / 997bea5), exploded
+    form objects that are not sent (`queryObj_absent`, `query_obj_absent_regression`, F-C05-5 / 404949f), free-form map query
+    parameters (`query_obj_noprops_regression`, F-C05-6 / aa57be9), deepObject keys with junk text (`deep_key_junk_regression`,
+    F-C05-7 / f73e4f9), content-described parameters (`content_absent`, `content_regression`, F-C05-9 / ea25ec8, F-C05-10 /
+    c3da93a).
 -/
 import KinModel.Style
 import KinModel.Lemmas.C05Str
@@ -343,15 +346,16 @@ theorem path_missing_prefix_is_parse_error (prim : PT → Str → PR) (name : St
   rw [hf]
   simp [pathRaw_some raw hraw, cutPrefix, hp]
 
-/-- query form, explode=true: every pair travels as its own query entry -/
-theorem query_object_explode_roundtrip (fl : Flavour) (hfl : fl.absentAware = false) (name : Str) (req : Bool) (kvs : List (Str × Str)) (hne : kvs ≠ [])
+/-- query form, explode=true: every pair travels as its own query entry; when nothing of the object is found and there is
+no additionalProperties schema the parameter is absent (commit 404949f) -/
+theorem query_object_explode_roundtrip (fl : Flavour) (name : Str) (req : Bool) (kvs : List (Str × Str)) (hne : kvs ≠ [])
     (sprops : List (Str × PS)) (rq : List Str) (addl : Option PS) :
     ∃ r, encode ⟨.query, .form, true⟩ name (.obj kvs) = some r ∧
       decodeStyled fl ⟨.query, .form, true⟩ name req r (.leaf (.obj sprops rq addl)) =
         match makeObject fl.prim kvs sprops addl with
         | none => ⟨.nilObj, false, some .parse⟩
-        | some res => ⟨.obj res, objFound fl.presenceAware sprops res (queryObjFound sprops kvs res), none⟩ := by
-  have hfa : fl.absentAware = false := hfl
+        | some res => if !queryObjFound sprops kvs res && true && addl.isNone then absentObj
+                      else ⟨.obj res, queryObjFound sprops kvs res, none⟩ := by
   have hfv : ∀ l : List (Str × Str), firstVals (l.map (fun kv => (kv.1, [kv.2]))) = l := by
     intro l
     induction l with
@@ -362,8 +366,8 @@ theorem query_object_explode_roundtrip (fl : Flavour) (hfl : fl.absentAware = fa
     | nil => contradiction
     | cons kv rest => rfl
   refine ⟨{ query := kvs.map (fun kv => (kv.1, [kv.2])) }, by simp [encode, encQuery], ?_⟩
-  simp [decodeStyled, earlyAbsent, hq, decodeValue, decodeLeaf, queryObj, hfv kvs, hfa]
-  rfl
+  simp only [decodeStyled, earlyAbsent, hq, decodeValue, decodeLeaf, queryObj, hfv kvs]
+  cases hm : makeObject fl.prim kvs sprops addl <;> simp [hm]
 
 /-- the three path styles, explode=false: "a,1,b,x" behind the style prefix -/
 theorem path_object_roundtrip (fl : Flavour) (name : Str) (st : Sty) (req : Bool)
@@ -560,7 +564,7 @@ theorem query_object_roundtrip (fl : Flavour) (name : Str) (req : Bool)
       decodeStyled fl ⟨.query, .form, false⟩ name req r (.leaf (.obj sprops rq addl)) =
         match makeObject fl.prim kvs sprops addl with
         | none => ⟨.nilObj, false, some .parse⟩
-        | some res => ⟨.obj res, objFound fl.presenceAware sprops res (queryObjFound sprops kvs res), none⟩ := by
+        | some res => ⟨.obj res, queryObjFound sprops kvs res, none⟩ := by
   have hne : kvs ≠ [] := by
     intro e; subst e; simp [encodable, encodableObj] at henc
   have hfree : ∀ kv ∈ kvs, ',' ∉ kv.1 ∧ ',' ∉ kv.2 := by
@@ -570,7 +574,7 @@ theorem query_object_roundtrip (fl : Flavour) (name : Str) (req : Bool)
     exact ⟨this.1.1.1, this.1.1.2⟩
   refine ⟨{ query := [(name, [joinL [','] (flatKV kvs)])] }, by simp [encode, encQuery], ?_⟩
   simp [decodeStyled, earlyAbsent, decodeValue, decodeLeaf, queryObj, qLookup, propsFromString_flat kvs hne hfree]
-  rfl
+  cases makeObject fl.prim kvs sprops addl <;> rfl
 
 /-- query, deepObject: `p[a]=1&p[b]=x` — every key is read back as its single segment, no clash error can arise,
 and the declared properties are then built from exactly the pairs that were encoded -/
@@ -599,7 +603,7 @@ theorem deep_object_roundtrip (fl : Flavour) (name : Str) (req : Bool)
     | cons a b => exact ⟨a, b, rfl⟩
   have hq : (deepEnc name (kv0 :: rest)).isEmpty = false := by simp [deepEnc]
   have hcl := deepClash_pairs (kv0 :: rest)
-  simp only [decodeStyled, earlyAbsent, hq, decodeValue, decodeLeaf, deepReq_deepEnc fl name hn _ hk, queryDeepFlat, queryDeep, hdp]
+  simp only [decodeStyled, earlyAbsent, hq, decodeValue, decodeLeaf, strictReq_deepEnc name hn _ hk, queryDeepFlat, queryDeep, hdp]
   simp only [deepPairs, List.map_cons] at hcl ⊢
   simp only [hcl]
   cases hb : buildDeep fl.prim (([kv0.1], [kv0.2]) :: List.map (fun kv => ([kv.1], [kv.2])) rest)
@@ -885,10 +889,10 @@ texts that read back, arrays without holes, objects selecting declared propertie
 primitive leaf as `name[k1][k2]…[kn]=text` (`encQ`). Then urlValuesDecoder.DecodeObject — regexp key selection, bracket
 groups, deepSet clash check, buildResObj's recursion with sliceMapToSlice for arrays, the `found` loop — returns exactly
 that value, found, without error: for every parameter name without `[`, both flavours. -/
-theorem nest_roundtrip (prim : PT → Str → PR) (pa : Bool) (name : Str) (hn : '[' ∉ name)
+theorem nest_roundtrip (prim : PT → Str → PR) (name : Str) (hn : '[' ∉ name)
     (props : List (Str × NS)) (req : List Str) (kvs : List (Str × NV))
     (hfit : fitsB prim ((NS.obj props req none).depth + 1) (.obj props req none) (.o kvs) = true) :
-    let o := queryNest prim pa name { query := encQ name (encO kvs) } props req none
+    let o := queryNest prim name { query := encQ name (encO kvs) } props req none
     o.val = some kvs ∧ o.found = true ∧ o.err = none := by
   have hb := nbuild_encN prim _ _ _ hfit
   have hnc := noClash_encN prim _ _ _ hfit
@@ -932,7 +936,7 @@ theorem nest_roundtrip (prim : PT → Str → PR) (pa : Bool) (name : Str) (hn :
   | cons d ds =>
     simp only [hcl, Bool.false_eq_true, if_false]
     rw [hb']
-    simp [hfound, objFound, hprops]
+    simp [hfound]
 
 /-- a schema of depth 5 and a value with objects in objects, an array of objects and an array of arrays: the hypotheses
 of `nest_roundtrip` hold, the keys are the ones a client writes, and the code's flavour decodes them back -/
@@ -983,17 +987,17 @@ theorem nest_agrees_with_deep_examples :
 /-! ### content-described parameters (KinModel/StyleContent.lean; json.Unmarshal is the parameter `unm`) -/
 
 /-- one value under a JSON media type: a text that is JSON is decoded to its JSON value, whatever the schema says -/
-theorem content_json_value (unm : Str → Option Val) (leak : Bool) (p : CParam) (r : Req) (t : Str) (v : Val)
+theorem content_json_value (unm : Str → Option Val) (p : CParam) (r : Req) (t : Str) (v : Val)
     (hv : contentValues p.loc p.name r = some [t]) (hm : ∃ k, p.media = [k] ∧ mediaIsJSON k = true) (hj : unm t = some v) :
-    decodeContent unm leak p r = .val v := by
+    decodeContent unm p r = .val v := by
   obtain ⟨k, hk, hkj⟩ := hm
   simp [decodeContent, hv, hk, hkj, unmarshalC, hj]
 
 /-- a text that is not JSON is taken as the string it is — exactly when a schema is given and it is not an object
 schema; otherwise the parameter is an error -/
-theorem content_not_json (unm : Str → Option Val) (leak : Bool) (p : CParam) (r : Req) (t : Str)
+theorem content_not_json (unm : Str → Option Val) (p : CParam) (r : Req) (t : Str)
     (hv : contentValues p.loc p.name r = some [t]) (hm : ∃ k, p.media = [k] ∧ mediaIsJSON k = true) (hj : unm t = none) :
-    decodeContent unm leak p r =
+    decodeContent unm p r =
       match p.schema with
       | some s => if schIsObject s then .err else .val (.prim (.str t))
       | none => .err := by
@@ -1003,10 +1007,10 @@ theorem content_not_json (unm : Str → Option Val) (leak : Bool) (p : CParam) (
   | some s => cases ho : schIsObject s <;> simp [decodeContent, hv, hk, hkj, unmarshalC, hj, hs, ho]
 
 /-- several values are an error everywhere but in the query; the `content` map must hold exactly one JSON-like key -/
-theorem content_structural_errors (unm : Str → Option Val) (leak : Bool) (p : CParam) (r : Req) (vs : List Str)
+theorem content_structural_errors (unm : Str → Option Val) (p : CParam) (r : Req) (vs : List Str)
     (hv : contentValues p.loc p.name r = some vs)
     (h : (1 < vs.length ∧ p.loc ≠ .query) ∨ p.media.length ≠ 1 ∨ p.media.all mediaIsJSON = false) :
-    decodeContent unm leak p r = .err := by
+    decodeContent unm p r = .err := by
   unfold decodeContent
   rw [hv]
   rcases h with ⟨h1, h2⟩ | h | h
@@ -1024,9 +1028,9 @@ theorem content_structural_errors (unm : Str → Option Val) (leak : Bool) (p : 
 
 /-- the decision after decoding: null is an empty value (rejected unless allowEmptyValue), no schema accepts, otherwise
 the schema decides -/
-theorem content_decision (unm : Str → Option Val) (visit : Sch → Val → Bool) (sentinel : Bool) (p : CParam) (r : Req) (v : Val)
-    (h : decodeContent unm (!sentinel) p r = .val v) :
-    validateContent unm visit sentinel p r =
+theorem content_decision (unm : Str → Option Val) (visit : Sch → Val → Bool) (p : CParam) (r : Req) (v : Val)
+    (h : decodeContent unm p r = .val v) :
+    validateContent unm visit p r =
       if v.isNilValue then (if p.allowEmpty then .accept else .empty)
       else match p.schema with
         | none => .accept
@@ -1035,51 +1039,25 @@ theorem content_decision (unm : Str → Option Val) (visit : Sch → Val → Boo
   rw [h]
   cases hn : v.isNilValue <;> cases ha : p.allowEmpty <;> cases p.schema <;> simp [hn, ha]
 
-/-- code = specification for content-described parameters outside ContentMissing and ContentCookieAbsent -/
-theorem content_flavour_partial (unm : Str → Option Val) (visit : Sch → Val → Bool) (p : CParam) (r : Req)
-    (h9 : ContentMissing p r = false) (h10 : ContentCookieAbsent p r = false) :
-    validateContent unm visit false p r = validateContent unm visit true p r := by
-  cases hv : contentValues p.loc p.name r with
-  | some vs =>
-    have hsame : decodeContent unm (!false) p r = decodeContent unm (!true) p r := by
-      unfold decodeContent; rw [hv]
-    have hnm : decodeContent unm (!true) p r ≠ .missingErr := by
-      unfold decodeContent; rw [hv]
-      simp only
-      repeat' split
-      all_goals simp
-    unfold validateContent
-    rw [hsame]
-    cases hd : decodeContent unm (!true) p r with
-    | missingErr => exact absurd hd hnm
-    | absent => rfl
-    | err => rfl
-    | val v => rfl
-  | none =>
-    unfold validateContent decodeContent
-    rw [hv]
-    have hreq : p.required = false := by simpa [ContentMissing, hv] using h9
-    have hck : p.loc ≠ .cookie := by
-      intro e
-      have hc : r.cookie = none := by
-        cases hcv : r.cookie with
-        | none => rfl
-        | some s => simp [contentValues, e, hcv] at hv
-      simp [ContentCookieAbsent, hreq, e, hc] at h10
-    simp [hreq, hck]
+/-- an absent content-described parameter, in every location and whatever json.Unmarshal does: missing iff required
+(full strength since ea25ec8 and c3da93a; the former classes ContentMissing, F-C05-9, and ContentCookieAbsent, F-C05-10,
+are deleted) -/
+theorem content_absent (unm : Str → Option Val) (visit : Sch → Val → Bool) (p : CParam) (r : Req)
+    (h : contentValues p.loc p.name r = none) :
+    validateContent unm visit p r = if p.required then .missing else .accept := by
+  simp [validateContent, decodeContent, h]
 
-/-- F-C05-9 (ContentMissing) and F-C05-10 (ContentCookieAbsent), whatever json.Unmarshal does: a required content
-parameter that is absent is an unspecific error, not `missing`; an optional content *cookie* that is absent is an error
-(the leaked http.ErrNoCookie), while the same parameter in the query is accepted -/
-theorem content_witnesses (unm : Str → Option Val) (visit : Sch → Val → Bool) :
+/-- regression (former witnesses of F-C05-9 and F-C05-10): a required content parameter that is absent is `missing`
+(ErrInvalidRequired); an optional content *cookie* that is absent is accepted, like the same parameter in the query -/
+theorem content_regression (unm : Str → Option Val) (visit : Sch → Val → Bool) :
     let pq : CParam := ⟨.query, ['p'], true, false, ["application/json".toList], some (.leaf (.prim { t := .integer }))⟩
     let pc : CParam := ⟨.cookie, ['p'], false, false, ["application/json".toList], some (.leaf (.prim { t := .integer }))⟩
+    let pc2 : CParam := ⟨.cookie, ['p'], true, false, ["application/json".toList], some (.leaf (.prim { t := .integer }))⟩
     let pq2 : CParam := ⟨.query, ['p'], false, false, ["application/json".toList], some (.leaf (.prim { t := .integer }))⟩
     let r : Req := { query := [("zz".toList, [['1']])] }
-    ContentMissing pq r = true ∧ validateContent unm visit false pq r = .other ∧ validateContent unm visit true pq r = .missing ∧
-    ContentCookieAbsent pc r = true ∧ validateContent unm visit false pc r = .other ∧ validateContent unm visit true pc r = .accept ∧
-    validateContent unm visit false pq2 r = .accept := by
-  simp [ContentMissing, ContentCookieAbsent, validateContent, decodeContent, contentValues, qLookup]
+    validateContent unm visit pq r = .missing ∧ validateContent unm visit pc r = .accept ∧
+    validateContent unm visit pc2 r = .missing ∧ validateContent unm visit pq2 r = .accept := by
+  simp [validateContent, decodeContent, contentValues, qLookup]
 
 /-! ### where the code and the specification part (exclusion classes), and that they part nowhere else -/
 
@@ -1115,56 +1093,14 @@ theorem cookieArr_flavour_partial (prim : PT → Str → PR) (st : Sty) (ex : Bo
 
 /-! ### code = specification outside the classes: every single-leaf schema, every cell, every request -/
 
-/-- the two flavours of the form-style object decoder agree whenever the request is outside QueryObjAbsent and the
-schema outside QueryObjNoProps -/
-theorem queryObj_flavour_partial (prim : PT → Str → PR) (name : Str) (st : Sty) (ex : Bool) (r : Req)
-    (sprops : List (Str × PS)) (addl : Option PS)
-    (habs : st = .form → ex = true → addl = none → (firstVals r.query).any (fun kv => hasKey kv.1 sprops) = true)
-    (hnp : sprops = [] → addl = none) :
-    queryObj prim false false name st ex r sprops addl = queryObj prim true true name st ex r sprops addl := by
-  unfold queryObj
-  by_cases hst : st ≠ .form
-  · rw [if_pos hst, if_pos hst]
-  · rw [if_neg hst, if_neg hst]
-    have hst' : st = .form := by
-      cases st <;> simp at hst ⊢
-    have hc : (true && ex && addl.isNone && !(firstVals r.query).any (fun kv => hasKey kv.1 sprops)) = false := by
-      cases ex with
-      | false => simp
-      | true =>
-        cases addl with
-        | some a => simp
-        | none => simp [habs hst' rfl rfl]
-    rw [hc]
-    simp only [Bool.false_and, Bool.false_eq_true, if_false]
-    split
-    · rfl
-    · rfl
-    · next props _ =>
-      cases hm : makeObject prim props sprops addl with
-      | none => rfl
-      | some kvs =>
-        simp only
-        cases sprops with
-        | cons a b => simp [objFound]
-        | nil =>
-          have ha := hnp rfl
-          subst ha
-          rw [makeObject_nil_none] at hm
-          cases hm
-          simp [objFound, queryObjFound]
-
-/-- one leaf: the code's decoder is the specification's outside the three decoder-level classes (stated per leaf) -/
+/-- one leaf: the code's decoder is the specification's outside CookieExplode and UntypedSchema (stated per leaf) -/
 theorem decodeLeaf_flavour_partial (c : Cell) (name : Str) (r : Req) (l : Leaf) (hea : earlyAbsent c r = false)
     (hdeep : ∀ sp rq, l = .deep sp rq → c.loc = .query ∧ c.style = .deepObject)
     (hck : c.loc = .cookie → c.explode = true → leafIsPrim l = true)
-    (hqa : c.loc = .query → c.style = .form → c.explode = true → leafQueryObjAbsent r l = false)
-    (hnp : c.loc = .query → leafNoProps l = false)
-    (hjunk : c.loc = .query → c.style = .deepObject → strictReq name r = r)
     (hunt : leafUntyped l = false) :
     decodeLeaf impl c name r l = decodeLeaf spec c name r l := by
   obtain ⟨loc, st, ex⟩ := c
-  simp only at hdeep hck hqa hnp hjunk
+  simp only at hdeep hck
   cases l with
   | untyped en => simp [leafUntyped] at hunt
   | prim ps =>
@@ -1179,44 +1115,24 @@ theorem decodeLeaf_flavour_partial (c : Cell) (name : Str) (r : Req) (l : Leaf) 
     simp [cookieArr]
   | obj sprops rq addl =>
     cases loc <;> simp only [decodeLeaf, impl, spec, specPrim_eq_parsePrim]
-    · have hnp' : sprops = [] → addl = none := by
-        intro e; subst e
-        cases addl with
-        | none => rfl
-        | some a => simpa [leafNoProps] using hnp rfl
-      split
-      · next hst =>
-        simp only [Flavour.deepReq, Bool.false_eq_true, if_false, if_true, hjunk rfl hst]
-        cases addl with
-        | none => rfl
-        | some a =>
-          simp only
-          cases sprops with
-          | nil => cases hnp' rfl
-          | cons kv rest => simp [queryDeepFlatA, objFound]
-      · apply queryObj_flavour_partial
-        · intro hst hex hadd
-          subst hst hex hadd
-          simpa [leafQueryObjAbsent] using hqa rfl rfl rfl
-        · exact hnp'
-    · have hex : ex = false := by
-        cases ex with
-        | false => rfl
-        | true => simpa [leafIsPrim] using hck rfl rfl
-      subst hex
-      simp [cookieObj]
+    have hex : ex = false := by
+      cases ex with
+      | false => rfl
+      | true => simpa [leafIsPrim] using hck rfl rfl
+    subst hex
+    simp [cookieObj]
   | deep sprops rq =>
     obtain ⟨hl, hst⟩ := hdeep sprops rq rfl
     subst hl hst
-    simp [decodeLeaf, impl, spec, specPrim_eq_parsePrim, Flavour.deepReq, hjunk rfl rfl]
+    simp [decodeLeaf, impl, spec, specPrim_eq_parsePrim]
 
 /-- **the decoders agree**: for every schema of the model — a leaf or an allOf / anyOf / oneOf over leaves — the code's
-decoder returns exactly what the specification's returns (value, found flag, error) on every request outside the three
-decoder-level classes. `hdeep` is the model's domain (nested property schemas are only modelled under style deepObject). -/
+decoder returns exactly what the specification's returns (value, found flag, error) on every request outside the two
+decoder-level classes CookieExplode and UntypedSchema (the classes QueryObjAbsent, QueryObjNoProps, DeepKeyJunk of the
+earlier rounds are repaired: 404949f, aa57be9, f73e4f9 — their hypotheses are gone). `hdeep` is the model's domain (nested property schemas are only modelled under style deepObject). -/
 theorem decodeStyled_impl_eq_spec_partial (p : Param) (r : Req)
     (hdeep : ∀ l ∈ schLeaves p.schema, ∀ sp rq, l = .deep sp rq → p.cell.loc = .query ∧ p.cell.style = .deepObject)
-    (h1 : CookieExplode p = false) (h3 : QueryObjAbsent p r = false) (h4 : QueryObjNoProps p = false)
-    (h5 : DeepKeyJunk p r = false) (h6 : UntypedSchema p = false) :
+    (h1 : CookieExplode p = false) (h6 : UntypedSchema p = false) :
     decodeStyled impl p.cell p.name p.required r p.schema = decodeStyled spec p.cell p.name p.required r p.schema := by
   obtain ⟨c, name, req, ae, sch⟩ := p
   simp only at hdeep ⊢
@@ -1232,18 +1148,6 @@ theorem decodeStyled_impl_eq_spec_partial (p : Param) (r : Req)
         simp only [CookieExplode, hloc, hex, Bool.and_true, decide_true, Bool.true_and] at h1
         have := any_false_mem _ _ h1 l hl
         simpa using this
-      · intro hloc hst hex
-        have hq : r.query.isEmpty = false := by
-          cases c with
-          | mk loc st ex => simp only at hloc; subst hloc; simpa [earlyAbsent] using hea
-        simp only [QueryObjAbsent, hloc, hst, hex, hq, Bool.and_true, decide_true, Bool.true_and, Bool.not_false] at h3
-        exact any_false_mem _ _ h3 l hl
-      · intro hloc
-        simp only [QueryObjNoProps, hloc, decide_true, Bool.true_and] at h4
-        exact any_false_mem _ _ h4 l hl
-      · intro hloc hst
-        simp only [DeepKeyJunk, hloc, hst, decide_true, Bool.true_and] at h5
-        exact strictReq_of_noJunk name r h5
       · exact any_false_mem _ _ h6 l hl
     cases sch with
     | leaf l => exact hleaf l (by simp [schLeaves])
@@ -1254,14 +1158,13 @@ theorem decodeStyled_impl_eq_spec_partial (p : Param) (r : Req)
 /-- **code = specification** (the full-strength statement `∀ p r, validateParameter p r = validateSpec p r` is false:
 the four witnesses below). For every parameter with a single-leaf schema — every cell, every name, every request,
 every primitive / array / flat-object / deepObject schema with distinct property names — the verdict of
-ValidateParameter is the specification's verdict outside CookieExplode, EnumGoType, QueryObjAbsent, QueryObjNoProps. -/
+ValidateParameter is the specification's verdict outside CookieExplode, EnumGoType and UntypedSchema. -/
 theorem validate_eq_spec_partial (p : Param) (r : Req) (l : Leaf) (hs : p.schema = .leaf l) (hwf : leafWF l)
     (hdeep : ∀ sp rq, l = .deep sp rq → p.cell.loc = .query ∧ p.cell.style = .deepObject)
-    (h1 : CookieExplode p = false) (h2 : EnumGoType p = false) (h3 : QueryObjAbsent p r = false)
-    (h4 : QueryObjNoProps p = false) (h5 : DeepKeyJunk p r = false) (h6 : UntypedSchema p = false) :
+    (h1 : CookieExplode p = false) (h2 : EnumGoType p = false) (h6 : UntypedSchema p = false) :
     validateParameter p r = validateSpec p r := by
   unfold validateParameter validateSpec
-  rw [decodeStyled_impl_eq_spec_partial p r (by rw [hs]; intro l' hl'; simp [schLeaves] at hl'; subst hl'; exact hdeep) h1 h3 h4 h5 h6]
+  rw [decodeStyled_impl_eq_spec_partial p r (by rw [hs]; intro l' hl'; simp [schLeaves] at hl'; subst hl'; exact hdeep) h1 h6]
   have hg : leafEnumGoType l = false := by
     simpa [EnumGoType, hs, schLeaves, isComposition] using h2
   obtain ⟨c, name, req, ae, sch⟩ := p
@@ -1284,24 +1187,22 @@ alternative's enum; that case is tied by the differential run.) -/
 theorem validate_eq_spec_enumfree_partial (p : Param) (r : Req)
     (hfree : (schLeaves p.schema).all leafEnumFree = true)
     (hdeep : ∀ l ∈ schLeaves p.schema, ∀ sp rq, l = .deep sp rq → p.cell.loc = .query ∧ p.cell.style = .deepObject)
-    (h1 : CookieExplode p = false) (h3 : QueryObjAbsent p r = false) (h4 : QueryObjNoProps p = false)
-    (h5 : DeepKeyJunk p r = false) (h6 : UntypedSchema p = false) :
+    (h1 : CookieExplode p = false) (h6 : UntypedSchema p = false) :
     validateParameter p r = validateSpec p r := by
   unfold validateParameter validateSpec
-  rw [decodeStyled_impl_eq_spec_partial p r hdeep h1 h3 h4 h5 h6]
+  rw [decodeStyled_impl_eq_spec_partial p r hdeep h1 h6]
   simp only [decide', visitSch_enumFree enumHitImpl deepEqImpl enumHitSpec enumHitSpec p.schema _ hfree]
 
 example : let p : Param := ⟨⟨.query, .pipeDelimited, false⟩, ['p'], true, false,
       .oneOf [.arr { t := .integer } (some 2) none [], .prim { t := .string }]⟩
     (schLeaves p.schema).all leafEnumFree = true ∧ CookieExplode p = false ∧
-    QueryObjAbsent p { query := [(['p'], ["1|2".toList])] } = false ∧ QueryObjNoProps p = false ∧
+    UntypedSchema p = false ∧
     validateParameter p { query := [(['p'], ["1|2".toList])] } = .accept := by decide
 
 /-- non-vacuity: the hypotheses hold for a required matrix-style object parameter with an additionalProperties schema -/
 example : let p : Param := ⟨⟨.path, .matrix, true⟩, "id".toList, true, false,
       .leaf (.obj [(['a'], { t := .int32, max := some 6 }), (['b'], { t := .string, enum := [.str ['x']] })] [['a']] (some { t := .integer }))⟩
-    CookieExplode p = false ∧ EnumGoType p = false ∧ QueryObjAbsent p { path := some ";a=5;b=x;z=7".toList } = false ∧
-    QueryObjNoProps p = false ∧ validateParameter p { path := some ";a=5;b=x;z=7".toList } = .accept ∧
+    CookieExplode p = false ∧ EnumGoType p = false ∧ UntypedSchema p = false ∧ validateParameter p { path := some ";a=5;b=x;z=7".toList } = .accept ∧
     validateParameter p { path := some ";a=7;b=x".toList } = .schema := by decide
 
 /-! ### response headers: the same decoder behind validateResponseHeader -/
@@ -1368,7 +1269,7 @@ theorem respHeader_eq_spec_partial (name : Str) (st : Sty) (ex required : Bool) 
   unfold respHeaderImpl respHeaderSpec validateRespHeader
   have hd : decodeLeaf impl ⟨.header, st, ex⟩ name r l = decodeLeaf spec ⟨.header, st, ex⟩ name r l :=
     decodeLeaf_flavour_partial ⟨.header, st, ex⟩ name r l (by simp [earlyAbsent])
-      (fun sp rq e => absurd e (hdeep sp rq)) (by simp) (by simp) (by simp) (by simp) h6
+      (fun sp rq e => absurd e (hdeep sp rq)) (by simp) h6
   have hty : TypedVal l (decodeLeaf spec ⟨.header, st, ex⟩ name r l).val :=
     decodeLeaf_typed spec (by simp [spec, specPrim_eq_parsePrim]) _ name r l hwf
   simp only [decodeValue, hd, visitSch]
@@ -1432,67 +1333,54 @@ theorem addl_shadow_regression :
     validateParameter p r3 = .parse ∧ validateSpec p r3 = .parse := by
   decide
 
-/-- QueryObjAbsent: `?zz=1`, optional exploded object `{required: [a], properties: {a: integer}}`: the parameter is
-absent, yet the code validates the empty object it built from the unrelated query parameter and rejects -/
-theorem query_obj_absent_witness :
+/-- regression (former witness of F-C05-5, class QueryObjAbsent, repaired in 404949f): `?zz=1`, optional exploded object
+`{required: [a], properties: {a: integer}}`: none of the object's properties is sent, the parameter is absent and
+accepted (before: the empty object built from the unrelated query parameter was validated and rejected); a required
+one is missing; with `?a=5&zz=1` the object is `{a: 5}` -/
+theorem query_obj_absent_regression :
     let p : Param := ⟨⟨.query, .form, true⟩, ['p'], false, false, .leaf (.obj [(['a'], { t := .integer })] [['a']] none)⟩
     let r : Req := { query := [("zz".toList, [['1']])] }
-    QueryObjAbsent p r = true ∧ validateParameter p r = .schema ∧ validateSpec p r = .accept ∧
-    (decodeStyled impl p.cell p.name false r p.schema).val = .obj [] := by
+    validateParameter p r = .accept ∧ validateSpec p r = .accept ∧
+    decodeStyled impl p.cell p.name false r p.schema = absentObj ∧
+    validateParameter { p with required := true } r = .missing ∧
+    decodeStyled impl p.cell p.name false { query := [(['a'], [['5']]), ("zz".toList, [['1']])] } p.schema =
+      ⟨.obj [(['a'], .int 5)], true, none⟩ := by
   decide
 
-/-- F-C05-6 (QueryObjNoProps): a free-form map `{type: object, additionalProperties: {type: string}}` as a required
-query parameter: `?filter[name]=x` (deepObject) and `?p=k,v` (form, explode=false) decode to the object that was sent,
-yet `found` stays false — it is only ever set inside the loop over the declared properties — and the supplied
-parameter is reported missing. The same text in a header is found. -/
-theorem query_obj_noprops_witness :
+/-- regression (former witness of F-C05-6, class QueryObjNoProps, repaired in aa57be9): a free-form map
+`{type: object, additionalProperties: {type: string}}` as a required query parameter — `?filter[name]=x` (deepObject),
+`?p=k,v` (form, explode=false), `?k=v` (form, explode=true) — is found and accepted, as it always was in a header -/
+theorem query_obj_noprops_regression :
     let sch : Sch := .leaf (.obj [] [] (some { t := .string }))
     let p : Param := ⟨⟨.query, .deepObject, true⟩, "filter".toList, true, false, sch⟩
     let r : Req := { query := [("filter[name]".toList, ["x".toList])] }
     let p2 : Param := ⟨⟨.query, .form, false⟩, ['p'], true, false, sch⟩
     let r2 : Req := { query := [(['p'], ["k,v".toList])] }
     let p3 : Param := ⟨⟨.header, .simple, false⟩, ['p'], true, false, sch⟩
-    QueryObjNoProps p = true ∧ validateParameter p r = .missing ∧ validateSpec p r = .accept ∧
-    decodeStyled impl p.cell p.name true r sch = ⟨.obj [("name".toList, .str ['x'])], false, none⟩ ∧
-    QueryObjNoProps p2 = true ∧ validateParameter p2 r2 = .missing ∧ validateSpec p2 r2 = .accept ∧
-    decodeStyled impl p2.cell p2.name true r2 sch = ⟨.obj [(['k'], .str ['v'])], false, none⟩ ∧
-    QueryObjNoProps p3 = false ∧ validateParameter p3 { header := some ["k,v".toList] } = .accept := by
+    let p4 : Param := ⟨⟨.query, .form, true⟩, ['p'], true, false, sch⟩
+    validateParameter p r = .accept ∧ validateSpec p r = .accept ∧
+    decodeStyled impl p.cell p.name true r sch = ⟨.obj [("name".toList, .str ['x'])], true, none⟩ ∧
+    validateParameter p2 r2 = .accept ∧ validateSpec p2 r2 = .accept ∧
+    decodeStyled impl p2.cell p2.name true r2 sch = ⟨.obj [(['k'], .str ['v'])], true, none⟩ ∧
+    validateParameter p3 { header := some ["k,v".toList] } = .accept ∧
+    validateParameter p4 { query := [(['k'], [['v']])] } = .accept := by
   decide
 
-/-- F-C05-7 (DeepKeyJunk): `?p[a]=1&p[a]zz=x` against `{a: integer}`, style deepObject. `p[a]zz` is not a key of `p`
-(the specification ignores it and accepts `{a: 1}`); the code reads only its bracket groups, so both keys land on the
-map key "a" and the iteration order of `url.Values` decides which text survives: the model evaluated on the two
-orders gives `{a: 1}` / accept and a ParseError — the same request is accepted or rejected from run to run. A junk key
-alone (`?p[a]zz=5`) is decoded as `p[a]=5`. -/
-theorem deep_key_junk_witness :
+/-- regression (former witness of F-C05-7, class DeepKeyJunk, repaired in f73e4f9): `?p[a]=1&p[a]zz=x` against
+`{a: integer}`, style deepObject. `p[a]zz` is not a key of `p`: it is skipped, the value is `{a: 1}` in either order of
+the query (before: both keys landed on the map key "a" and the iteration order decided between accept and ParseError);
+a junk key alone leaves the parameter absent -/
+theorem deep_key_junk_regression :
     let sch : Sch := .leaf (.deep [(['a'], .prim { t := .integer })] [])
     let p : Param := ⟨⟨.query, .deepObject, true⟩, ['p'], false, false, sch⟩
     let r1 : Req := { query := [("p[a]".toList, [['1']]), ("p[a]zz".toList, [['x']])] }
     let r2 : Req := { query := [("p[a]zz".toList, [['x']]), ("p[a]".toList, [['1']])] }
     let r3 : Req := { query := [("p[a]zz".toList, [['5']])] }
-    DeepKeyJunk p r1 = true ∧ validateParameter p r1 = .accept ∧ validateParameter p r2 = .parse ∧
+    validateParameter p r1 = .accept ∧ validateParameter p r2 = .accept ∧
     validateSpec p r1 = .accept ∧ validateSpec p r2 = .accept ∧
-    (decodeStyled spec p.cell p.name false r2 sch).val = .dobj [(['a'], .p (.int 1))] ∧
-    DeepKeyJunk p r3 = true ∧ (decodeStyled impl p.cell p.name false r3 sch).val = .dobj [(['a'], .p (.int 5))] ∧
-    decodeStyled spec p.cell p.name false r3 sch = absentObj := by
-  decide
-
-/-- F-C05-8 (UntypedSchema): `?q=abc` against `schema: {}` (or `{enum: [abc, x]}`: no `type`): decodeValue never reads
-the text — it falls through to its last switch and returns (nil, found=true) — and ValidateParameter reports the present
-parameter as an *empty value*; the specification reads the text as a string and accepts. The same in a header, a
-cookie and a path; a response header with such a schema is rejected whenever it is present (nil is validated). -/
-theorem untyped_schema_witness :
-    let p : Param := ⟨⟨.query, .form, true⟩, ['q'], false, false, .leaf (.untyped [])⟩
-    let pe : Param := ⟨⟨.header, .simple, false⟩, ['q'], true, false, .leaf (.untyped [.str "abc".toList, .str ['x']])⟩
-    let r : Req := { query := [(['q'], ["abc".toList])] }
-    let rh : Req := { header := some ["abc".toList] }
-    UntypedSchema p = true ∧ validateParameter p r = .empty ∧ validateSpec p r = .accept ∧
-    decodeStyled impl p.cell p.name false r p.schema = ⟨.nil, true, none⟩ ∧
-    decodeStyled spec p.cell p.name false r p.schema = ⟨.prim (.str "abc".toList), true, none⟩ ∧
-    UntypedSchema pe = true ∧ validateParameter pe rh = .empty ∧ validateSpec pe rh = .accept ∧
-    validateSpec pe { header := some ["zz".toList] } = .schema ∧
-    respHeaderImpl ['q'] .simple false false rh (.leaf (.untyped [])) = .schema ∧
-    respHeaderSpec ['q'] .simple false false rh (.leaf (.untyped [])) = .accept := by
+    (decodeStyled impl p.cell p.name false r1 sch).val = .dobj [(['a'], .p (.int 1))] ∧
+    (decodeStyled impl p.cell p.name false r2 sch).val = .dobj [(['a'], .p (.int 1))] ∧
+    decodeStyled impl p.cell p.name false r3 sch = absentObj := by
   decide
 
 /-- well-formed keys are exactly `name[s1]…[sn]`; text after, between or instead of the closing bracket is junk -/
@@ -1503,29 +1391,23 @@ theorem wellFormedKey_examples :
     wellFormedKey ['p'] "pq[a]".toList = true ∧ wellFormedKey ['p'] "zz".toList = true := by
   decide
 
-/-- outside the class (some property is declared, or the flag is the code's) `found` is the code's own computation -/
-theorem objFound_partial {β γ : Type} (pa : Bool) (sprops : List (Str × β)) (val : List (Str × γ)) (cf : Bool)
-    (h : pa = false ∨ sprops ≠ []) : objFound pa sprops val cf = cf := by
-  unfold objFound
-  rcases h with h | h
-  · simp [h]
-  · cases sprops with
-    | nil => contradiction
-    | cons a b => simp
-
-/-- outside the class (a declared property is present, or the object has an additionalProperties schema, or the
-cell is not query/form/explode) the two flavours of `queryObj` coincide -/
-theorem queryObj_absent_partial (prim : PT → Str → PR) (pa : Bool) (name : Str) (st : Sty) (ex : Bool) (r : Req)
-    (sprops : List (Str × PS)) (addl : Option PS)
-    (h : ex = false ∨ addl.isSome = true ∨ (firstVals r.query).any (fun kv => hasKey kv.1 sprops) = true) :
-    queryObj prim true pa name st ex r sprops addl = queryObj prim false pa name st ex r sprops addl := by
-  unfold queryObj
-  rcases h with h | h | h
-  · simp [h]
-  · cases addl with
-    | none => simp at h
-    | some a => simp
-  · simp [h]
+/-- the general form of the former class QueryObjAbsent, now a theorem about the code: an exploded form object without
+additionalProperties schema none of whose declared properties occurs among the query parameters is absent — for every
+schema, every other query parameter, both flavours -/
+theorem queryObj_absent (prim : PT → Str → PR) (name : Str) (r : Req) (sprops : List (Str × PS))
+    (h : (firstVals r.query).any (fun kv => hasKey kv.1 sprops) = false) :
+    queryObj prim name .form true r sprops none = absentObj := by
+  have hb : buildProps prim (firstVals r.query) sprops = some [] := buildProps_none_present prim _ sprops h
+  have hf : queryObjFound sprops (firstVals r.query) ([] : List (Str × PV)) = false := by
+    cases sprops with
+    | nil => simp [queryObjFound]
+    | cons a b =>
+      simp only [queryObjFound, List.isEmpty_cons, Bool.false_and, Bool.false_or, Bool.not_false, Bool.true_and]
+      rw [List.any_eq_false] at h ⊢
+      intro kv hkv
+      have := h kv hkv
+      simpa [hasKey] using this
+  simp [queryObj, makeObject, hb, hf]
 
 /-! ### non-vacuity: the hypotheses of the round-trip theorems are satisfiable in every location -/
 
@@ -1566,6 +1448,18 @@ theorem styleDefaults_eq_model :
     Gen.styleDefaults.all (fun r => match r with
       | .dflt l st ex => decide (defaultMethod l = (st, ex))
       | .unrecognised _ => false) = true := by
+  decide
+
+/-- style and explode are defaulted independently: `style: form` without `explode` explodes (query, cookie), `explode: true`
+without `style` is the location's default style, and what the document spells out is kept — every such cell is legal -/
+theorem smOf_defaults :
+    [Loc.path, .query, .header, .cookie].all (fun l =>
+      decide (smOf l none none = ⟨l, (defaultMethod l).1, (defaultMethod l).2⟩) &&
+      allStyles.all (fun st => decide (smOf l (some st) none = ⟨l, st, (defaultMethod l).2⟩)) &&
+      [false, true].all (fun ex => decide (smOf l none (some ex) = ⟨l, (defaultMethod l).1, ex⟩) &&
+        allStyles.all (fun st => decide (smOf l (some st) (some ex) = ⟨l, st, ex⟩)))) = true ∧
+    smOf .query (some .form) none = ⟨.query, .form, true⟩ ∧ smOf .cookie (some .form) none = ⟨.cookie, .form, true⟩ ∧
+    smOf .query (some .pipeDelimited) none = ⟨.query, .pipeDelimited, true⟩ ∧ smOf .path none (some true) = ⟨.path, .simple, true⟩ := by
   decide
 
 /-! ### translator table DecoderFmt (regenerated from openapi3filter/req_resp_decoder.go on every run) -/
